@@ -463,6 +463,16 @@ mut("c04-partial-split-right-unmarked", "C04", "location.go", "\tif ranged.Parti
 mut("c06-push-complement-order", "C06", "location.go", "\t\t\ttmp := LocationList{u.Location, nil}\n\t\t\ttmp.Push(v.Location, force)", "\t\t\ttmp := LocationList{v.Location, nil}\n\t\t\ttmp.Push(u.Location, force)", ["PUSH-COMPLEMENT|gts.(*LocationList).Push|Complemented+Complemented"])
 mut("c06-push-complement-force-dropped", "C06", "location.go", "\t\t\ttmp.Push(v.Location, force)", "\t\t\ttmp.Push(v.Location, false)", ["PUSH-COMPLEMENT|gts.(*LocationList).Push|Complemented+Complemented"])
 
+
+mut("c01-blank-line-reverted", "C01", "seqio/genbank.go", "\tif len(gb.Table) > 0 {\n\t\tb.WriteString(\"FEATURES             Location/Qualifiers\\n\")\n\t\tfmtr := INSDCFormatter{gb.Table, \"     \", 21}\n\t\tfmtr.WriteTo(&b)\n\t\tb.WriteByte('\\n')\n\t}\n", "\tb.WriteString(\"FEATURES             Location/Qualifiers\\n\")\n\tfmtr := INSDCFormatter{gb.Table, \"     \", 21}\n\tfmtr.WriteTo(&b)\n\tb.WriteByte('\\n')\n", ["BLANK-LINE|seqio.GenBank.String"], note="the repaired defect, reintroduced")
+mut("c01-blank-line-double-newline", "C01", "seqio/genbank.go", 'b.WriteString("VERSION     " + gb.Fields.Version + "\\n")', 'b.WriteString("VERSION     " + gb.Fields.Version + "\\n")\n\tb.WriteByte(\'\\n\')', ["BLANK-LINE|seqio.GenBank.String"])
+mut("c01-blank-line-silent-guard-neq", "C01", "seqio/genbank.go", "\tif len(gb.Table) > 0 {\n\t\tb.WriteString(\"FEATURES", "\tif len(gb.Table) != 0 {\n\t\tb.WriteString(\"FEATURES", silent=True)
+mut("c05-mirror-point-as-offset", "C05", "location.go", "return Point(length - 1 - int(point))", "return Point(length - int(point))", ["MIRROR-ARITH|gts.Point.Reverse"])
+mut("c05-mirror-point-silent-reordered", "C05", "location.go", "return Point(length - 1 - int(point))", "return Point(length - int(point) - 1)", silent=True)
+mut("c05-mirror-ranged-unswapped", "C05", "location.go", "ret := PartialRange(length-ranged.End, length-ranged.Start, ranged.Partial)", "ret := PartialRange(length-ranged.Start, length-ranged.End, ranged.Partial)", ["MIRROR-ARITH|gts.Ranged.Reverse"])
+mut("c04-normalize-ambiguous-reverted", "C04", "location.go", "return Ambiguous{ambiguous.Start % length, (ambiguous.End-1)%length + 1}", "return Ambiguous{ambiguous.Start % length, ambiguous.End % length}", ["NORMALIZE-ARITH|gts.Ambiguous.Normalize"], note="the repaired defect, reintroduced")
+mut("c04-normalize-ranged-end", "C04", "location.go", "start, end := ranged.Start%length, (ranged.End-1)%length+1", "start, end := ranged.Start%length, ranged.End%length", ["NORMALIZE-ARITH|gts.Ranged.Normalize"])
+
 if __name__ == "__main__":
     here = os.path.dirname(os.path.abspath(__file__))
     ids = [m["id"] for m in M]
